@@ -347,7 +347,7 @@ func init() {
 			add(c)
 		}
 		// ---- request texts × output formats × split × device behaviour -----------------------------
-		formats := []string{"json", "jsonsimple", "jsonmerged", "", "xml", "JSON"}
+		formats := []string{"json", "jsonsimple", "jsonmerged", "", "xml", "JSON", "json ", " jsonmerged", "jsonsimple\t", "json\n"}
 		for i := 0; i < n; i++ {
 			c := base("exchange")
 			c.format = formats[g.pick(len(formats))]
@@ -358,6 +358,21 @@ func init() {
 			case 0:
 				c.auth = refuse
 				c.label, c.mustFail = "authentication refused", true
+				// the other ways a device says no (or something that is not a level at all)
+				switch g.pick(7) {
+				case 0:
+					c.auth = frameReply([]rscp.Message{{Tag: rscp.RSCP_AUTHENTICATION, DataType: rscp.Error, Value: rscp.RscpError(2 + g.pick(6))}})
+				case 1:
+					c.auth = frameReply([]rscp.Message{{Tag: rscp.RSCP_AUTHENTICATION, DataType: rscp.UInt16, Value: uint16(10)}})
+				case 2:
+					c.auth = frameReply([]rscp.Message{{Tag: rscp.RSCP_AUTHENTICATION, DataType: rscp.CString, Value: "10"}})
+				case 3:
+					c.auth = frameReply([]rscp.Message{{Tag: rscp.RSCP_AUTHENTICATION_USER, DataType: rscp.UChar8, Value: uint8(10)}})
+				case 4:
+					c.auth = frameReply([]rscp.Message{{Tag: rscp.RSCP_AUTHENTICATION, DataType: rscp.UChar8, Value: uint8(0)}})
+				case 5:
+					c.auth = frameReply([]rscp.Message{{Tag: rscp.RSCP_AUTHENTICATION, DataType: rscp.Uint64, Value: uint64(1) << 40}})
+				}
 			case 1:
 				c.auth = replySpec{behaviour{kind: "closeBefore"}, "X"}
 				c.label, c.mustFail = "device closes at authentication", true
@@ -377,6 +392,41 @@ func init() {
 			if c.format != "" {
 				c.args = append(c.args, "-output", c.format)
 			}
+			if c.split {
+				c.args = append(c.args, "-splitrequests")
+			}
+			c.args = append(c.args, c.reqText)
+			add(c)
+		}
+		// every spelling of the output option against a healthy device, split and unsplit
+		for k, f := range []string{"json", "jsonsimple", "jsonmerged", "xml", "JSON", "Json", "json ", " json", " jsonmerged", "jsonsimple\t", "json\n", "jsonmerged ", " "} {
+			for _, split := range []bool{false, true} {
+				c := base("output option " + strconv.Quote(f))
+				c.format, c.split = f, split
+				ms := mkReq(c, 1+k%2, true)
+				answers(c, ms)
+				c.args = append(c.args, "-output", f)
+				if split {
+					c.args = append(c.args, "-splitrequests")
+				}
+				c.args = append(c.args, c.reqText)
+				add(c)
+			}
+		}
+		// every way a device refuses (or fails to grant) the authentication, and the two ways it grants it
+		for k, a := range []rscp.Message{
+			{Tag: rscp.RSCP_AUTHENTICATION, DataType: rscp.Error, Value: rscp.RscpError(2)}, {Tag: rscp.RSCP_AUTHENTICATION, DataType: rscp.Error, Value: rscp.RscpError(6)},
+			{Tag: rscp.RSCP_AUTHENTICATION, DataType: rscp.UInt16, Value: uint16(10)}, {Tag: rscp.RSCP_AUTHENTICATION, DataType: rscp.CString, Value: "10"},
+			{Tag: rscp.RSCP_AUTHENTICATION_USER, DataType: rscp.UChar8, Value: uint8(10)}, {Tag: rscp.RSCP_AUTHENTICATION, DataType: rscp.UChar8, Value: uint8(0)},
+			{Tag: rscp.RSCP_AUTHENTICATION, DataType: rscp.Int32, Value: int32(0)}, {Tag: rscp.RSCP_AUTHENTICATION, DataType: rscp.Uint64, Value: uint64(1) << 40},
+			{Tag: rscp.RSCP_AUTHENTICATION, DataType: rscp.Bool, Value: true}, {Tag: rscp.RSCP_AUTHENTICATION, DataType: rscp.None},
+			{Tag: rscp.RSCP_AUTHENTICATION, DataType: rscp.Int32, Value: int32(10)}, {Tag: rscp.RSCP_AUTHENTICATION, DataType: rscp.UChar8, Value: uint8(255)}} {
+			c := base(fmt.Sprintf("authentication reply form %d", k))
+			c.split = k%2 == 1
+			ms := mkReq(c, 1+k%2, true)
+			answers(c, ms)
+			c.auth = frameReply([]rscp.Message{a})
+			c.mustFail = k < 10
 			if c.split {
 				c.args = append(c.args, "-splitrequests")
 			}
